@@ -797,7 +797,7 @@ func c04R3(c *Ctx, p *Prog) {
 				"token "+lit+" is matched without regard to numerator/denominator position")
 		})
 	}
-	c.Floor(R, "token comparisons in the rewrite/class functions", nCmp, 3)
+	c.Floor(R, "token comparisons in the rewrite/class functions", nCmp, 2)
 
 	// Tokenizer loops: separator sets and flag updates.
 	sets := map[ssa.Value]map[string]bool{}
